@@ -31,7 +31,8 @@ def c08ShowObs : DiffObs → String
   | .tag none => "nil"
 
 /-- requests about node diffs (C08):
-    `diff <ops|-> <left tree> <right tree>` — CompareNodes, then the operations in order; after each
+    `diff <ops|-> <left tree> <right tree>` — first `g=<guard> d=<DeepEqual> a=<IsDeepEqual>`, then
+    CompareNodes and the operations in order; after each
     one its result, the diff and whether either compared tree differs from what it was; stops after
     the first operation that changed a compared tree; otherwise both trees are appended. -/
 def handleDiff (cmd : String) (rest : List String) : Option String :=
@@ -57,9 +58,14 @@ def handleDiff (cmd : String) (rest : List String) : Option String :=
           | [] => (acc.reverse, some w)
           | op :: more =>
             let r := diffStep w op
-            if changed r.1 then ((line r.1 (c08ShowObs r.2) :: acc).reverse, none)
-            else go r.1 more (line r.1 (c08ShowObs r.2) :: acc)
-        let (lines, w) := go w0 ops [line w0 "init"]
+            -- a Sort the model cannot predict (more than 20 children compared by a relation that is
+            -- not a strict weak order) is marked `~`: the harness sets the case aside
+            let o := if op == DiffOp.sort && !w.diff.sortExact then "~" else c08ShowObs r.2
+            if changed r.1 then ((line r.1 o :: acc).reverse, none)
+            else go r.1 more (line r.1 o :: acc)
+        -- the guard of deepEqual_all_two_sided, DeepEqual(l, r), IsDeepEqual of the fresh diff
+        let verdict := s!"g={b2s (equivLevelsB l r)} d={b2s (deepEqual l.erase r.erase)} a={b2s w0.diff.isDeepEqual}"
+        let (lines, w) := go w0 ops [line w0 "init", verdict]
         match w with
         | some w => pure (" ; ".intercalate lines ++ " ; " ++ showNode w.left.erase ++ " / " ++ showNode w.right.erase)
         | none => pure (" ; ".intercalate lines))
